@@ -35,6 +35,7 @@ def run(ctx):
     ctx.do(rule_truncate)
     ctx.do(rule_utc)
     ctx.do(rule_no_relabel)
+    ctx.do(rule_truncated_in_utc)
     ctx.do(rule_value_object)
     ctx.do(rule_api_domain)
     ctx.do(rule_property_forward)
@@ -303,6 +304,78 @@ def rule_utc(ctx):
     run.check(ok, R, key(rel, pd.qualname, "parsed-as-utc"), "parsed text / dates are not interpreted as UTC", file=rel,
               line=pd.node.lineno, function=pd.qualname, expected="aware -> astimezone(utc); naive -> localize(utc); date -> midnight UTC",
               found="changed")
+
+
+UTC_NAMES = ("pytz.utc", "pytz.UTC", "dt.timezone.utc", "datetime.timezone.utc", "timezone.utc")
+
+
+def _utc_normalised(expr, rd, node, depth=0):
+    """Is the value of expr, read at CFG node `node`, an instant expressed in UTC on every path?  Accepted producers:
+    x.astimezone(<utc>), <utc>.localize(x), datetime.combine(d, time(.., tzinfo=<utc>)), a name all of whose reaching
+    definitions are such, x.replace(...) without tzinfo of such a value, a conditional expression of such values."""
+    if depth > 6:
+        return False
+    if isinstance(expr, ast.IfExp):
+        return _utc_normalised(expr.body, rd, node, depth + 1) and _utc_normalised(expr.orelse, rd, node, depth + 1)
+    if isinstance(expr, ast.Call) and isinstance(expr.func, ast.Attribute):
+        f = expr.func
+        if f.attr == "astimezone" and expr.args and norm(expr.args[0]) in UTC_NAMES:
+            return True
+        if f.attr == "localize" and norm(f.value) in UTC_NAMES:
+            return True
+        if f.attr == "combine" and len(expr.args) == 2 and isinstance(expr.args[1], ast.Call) and any(
+                k.arg == "tzinfo" and norm(k.value) in UTC_NAMES for k in expr.args[1].keywords):
+            return True
+        if f.attr == "replace" and not any(k.arg == "tzinfo" for k in expr.keywords):
+            return _utc_normalised(f.value, rd, node, depth + 1)
+        return False
+    if isinstance(expr, ast.Name):
+        defs = rd.reaching(node, expr.id)
+        if not defs:
+            return False
+        for dn, val in defs:
+            if not isinstance(val, ast.AST) or not _utc_normalised(val, rd, dn, depth + 1):
+                return False
+        return True
+    return False
+
+
+def rule_truncated_in_utc(ctx, rule_id="C15.utc"):
+    """Truncation to the slot's precision cuts digits of the seconds fraction.  The fraction of an aware datetime is the
+    fraction of its LOCAL reading; it equals the fraction of the UTC instant only when the UTC offset is a whole number of
+    seconds (offsets with a sub-second part are legal since Python 3.7).  Cutting the local fraction and converting to UTC
+    afterwards (format_datetime) can therefore write an instant up to a second EARLIER than the truncated UTC instant, and
+    earlier than an earlier instant is written: ordering breaks.  Decided as an ordering rule with reaching definitions:
+    every value whose microsecond field is cut in parse_into_datetime is, on every path, already expressed in UTC."""
+    run = ctx.run
+    prog = ctx.prog
+    from ..cfg import ReachingDefs, cfg_of
+    pd = prog.func(U + "::parse_into_datetime")
+    rel = pd.module.relpath
+    g = cfg_of(pd)
+    rd = ReachingDefs(g, pd.all_param_names())
+    n = 0
+    for c in body_walk(pd.node):
+        if not (isinstance(c, ast.Call) and isinstance(c.func, ast.Attribute) and c.func.attr == "replace"
+                and any(k.arg == "microsecond" for k in c.keywords)):
+            continue
+        n += 1
+        stmt = c
+        while not isinstance(stmt, ast.stmt):
+            stmt = stmt.parent
+        ok = _utc_normalised(c.func.value, rd, g.node_of(stmt))
+        bad = []
+        if not ok and isinstance(c.func.value, ast.Name):
+            bad = sorted({norm(v) if isinstance(v, ast.AST) else str(v) for _d, v in rd.reaching(g.node_of(stmt), c.func.value.id)})
+        run.check(ok, rule_id, key(rel, pd.qualname, "truncated-on-the-utc-instant:%d" % n),
+                  "the microsecond field is cut on a value that is not yet expressed in UTC on every path: for a UTC offset with a "
+                  "sub-second part the local fraction differs from the fraction of the UTC instant, so the written timestamp can be "
+                  "up to a second (millisecond) before the truncated instant and before what an EARLIER instant is written as",
+                  file=rel, line=c.lineno, function=pd.qualname,
+                  expected="convert to UTC (astimezone / localize for naive values) before replace(microsecond=...)",
+                  found="definitions reaching the cut: %s" % bad)
+    if n < 2:
+        raise AnalysisError("fewer than 2 truncation sites in parse_into_datetime (%d): anchors lost" % n)
 
 
 def rule_no_relabel(ctx, rule_id="C15.utc"):
